@@ -80,6 +80,93 @@ func Deflate(data []byte, level int) []byte {
 	return out
 }
 
+// Deflate-stream endings of a compressed message (RFC 7692).
+const (
+	EndSync   = ""       // sync flush, the trailing 00 00 ff ff removed (section 7.2.1)
+	EndFinal  = "final"  // the last block has BFINAL=1 (flate.Writer.Close / Z_FINISH), nothing removed (section 7.2.3.4)
+	EndFinal0 = "final0" // the same followed by the octet 00, the form the RFC's example gives
+)
+
+// DeflateEnd produces a permessage-deflate payload of data with the given stream ending.
+func DeflateEnd(data []byte, level int, ending string) []byte {
+	if ending == EndSync {
+		return Deflate(data, level)
+	}
+	var b bytes.Buffer
+	w, err := flate.NewWriter(&b, level)
+	if err != nil {
+		panic(err)
+	}
+	_, _ = w.Write(data)
+	_ = w.Close()
+	out := b.Bytes()
+	if ending == EndFinal0 {
+		out = append(out, 0x00)
+	}
+	return out
+}
+
+// EOFWithData is a deterministic decompressor that hands out the last bytes of the stream
+// together with io.EOF (an io.Reader may do that; nbio's own flate reader does it only for
+// streams that end with a final block).
+type EOFWithData struct {
+	R       io.ReadCloser
+	pending []byte
+	done    bool
+}
+
+func (e *EOFWithData) Read(p []byte) (int, error) {
+	if len(p) == 0 {
+		return 0, nil
+	}
+	if e.done {
+		return 0, io.EOF
+	}
+	n := copy(p, e.pending)
+	e.pending = e.pending[n:]
+	for n < len(p) {
+		m, err := e.R.Read(p[n:])
+		n += m
+		if err == io.EOF {
+			e.done = true
+			return n, io.EOF
+		}
+		if err != nil {
+			return n, err
+		}
+	}
+	// p is full: look one byte ahead to know whether these were the last bytes
+	var one [1]byte
+	for {
+		m, err := e.R.Read(one[:])
+		if m == 1 {
+			e.pending = append(e.pending[:0], one[0])
+			return n, nil
+		}
+		if err == io.EOF {
+			e.done = true
+			return n, io.EOF
+		}
+		if err != nil {
+			return n, nil // delivered with the next call
+		}
+	}
+}
+
+func (e *EOFWithData) Close() error { return e.R.Close() }
+
+// OneByte is a deterministic decompressor that returns one byte per Read.
+type OneByte struct{ R io.ReadCloser }
+
+func (o *OneByte) Read(p []byte) (int, error) {
+	if len(p) == 0 {
+		return 0, nil
+	}
+	return o.R.Read(p[:1])
+}
+
+func (o *OneByte) Close() error { return o.R.Close() }
+
 // CloseCodeClass classifies a status code found in a close frame on the wire (RFC 6455 §7.4):
 // "legal", "illegal" or "unjudged".
 func CloseCodeClass(code int) string {
